@@ -93,7 +93,8 @@ def canon(x, memo=None):
   if isinstance(x, set):
     return ('set', n, tuple(sorted(repr(v) for v in x)))
   if isinstance(x, functools.partial):
-    return ('partial', n, ('obj', x.func), tuple(canon(v, memo) for v in x.args),
+    # Under CrossHair functools.partial(f) stores a tracing wrapper whose __wrapped__ is f.
+    return ('partial', n, ('obj', getattr(x.func, '__wrapped__', x.func)), tuple(canon(v, memo) for v in x.args),
             tuple((k, canon(v, memo)) for k, v in sorted(x.keywords.items())))
   d = getattr(x, '__dict__', None)
   if d is not None:
@@ -130,6 +131,9 @@ def mutable_ids(x, acc=None, include_internal=True):
       mutable_ids(v, acc, include_internal)
   elif isinstance(x, functools.partial):
     for v in tuple(x.args) + tuple(x.keywords.values()):
+      mutable_ids(v, acc, include_internal)
+  elif hasattr(x, '__dict__') and not isinstance(x, type):
+    for v in vars(x).values():
       mutable_ids(v, acc, include_internal)
   return acc
 
